@@ -454,6 +454,203 @@ func (r *c02State) runCase(p *pgProgram, id int) {
 	}
 }
 
+// ---------- host registration API family ----------
+//
+// The purity of what is CALLED is what the host declared, whichever registration call was used:
+// AddStaticFunction, EnhanceStaticFunction (replacement with / without description, built from the old
+// function or from scratch, pure or impure, replacing a pure or an impure function), AddSimpleFunction,
+// AddGoFunction.  Every function declared impure counts its calls (c02Ticks[key]).
+
+type c02HostCfg struct {
+	Name         string
+	Fn           string
+	DeclaredPure bool
+	Build        func(fg *value.FunctionGenerator, key int)
+}
+
+type c02PF = func(st funcGen.Stack[value.Value], cs []value.Value) (value.Value, error)
+
+func c02Counting(key int, inner c02PF) c02PF {
+	return func(st funcGen.Stack[value.Value], cs []value.Value) (value.Value, error) {
+		c02Ticks[key]++
+		return inner(st, cs)
+	}
+}
+
+func c02Double(st funcGen.Stack[value.Value], cs []value.Value) (value.Value, error) {
+	if i, ok := st.Get(0).(value.Int); ok {
+		return i * 2, nil
+	}
+	return nil, fmt.Errorf("int expected")
+}
+
+func c02HostConfigs() []c02HostCfg {
+	type F = funcGen.Function[value.Value]
+	return []c02HostCfg{
+		{"AddStaticFunction, IsPure false", "hcount", false, func(fg *value.FunctionGenerator, key int) {
+			fg.AddStaticFunction("hcount", F{Func: c02Counting(key, c02Double), Args: 1, IsPure: false})
+		}},
+		{"EnhanceStaticFunction(sqr): impure replacement literal without description", "sqr", false, func(fg *value.FunctionGenerator, key int) {
+			fg.EnhanceStaticFunction("sqr", func(old F) F { return F{Func: c02Counting(key, old.Func), Args: old.Args, IsPure: false} })
+		}},
+		{"EnhanceStaticFunction(abs): impure replacement with its own description", "abs", false, func(fg *value.FunctionGenerator, key int) {
+			fg.EnhanceStaticFunction("abs", func(old F) F {
+				return F{Func: c02Counting(key, old.Func), Args: old.Args, IsPure: false}.SetDescription("value", "counting abs")
+			})
+		}},
+		{"EnhanceStaticFunction(sign): old.Pure(false) with a new Func", "sign", false, func(fg *value.FunctionGenerator, key int) {
+			fg.EnhanceStaticFunction("sign", func(old F) F { nf := old.Pure(false); nf.Func = c02Counting(key, old.Func); return nf })
+		}},
+		{"EnhanceStaticFunction: impure replacement of an impure function", "himp", false, func(fg *value.FunctionGenerator, key int) {
+			fg.AddStaticFunction("himp", F{Func: c02Double, Args: 1, IsPure: false})
+			fg.EnhanceStaticFunction("himp", func(old F) F { return F{Func: c02Counting(key, old.Func), Args: old.Args, IsPure: false} })
+		}},
+		{"EnhanceStaticFunction: pure replacement of an impure function", "hpure", true, func(fg *value.FunctionGenerator, key int) {
+			fg.AddStaticFunction("hpure", F{Func: c02Double, Args: 1, IsPure: false})
+			fg.EnhanceStaticFunction("hpure", func(old F) F { return F{Func: old.Func, Args: old.Args, IsPure: true} })
+		}},
+		{"EnhanceStaticFunction(sqr): pure replacement literal without description", "sqr", true, func(fg *value.FunctionGenerator, key int) {
+			fg.EnhanceStaticFunction("sqr", func(old F) F { return F{Func: old.Func, Args: old.Args, IsPure: true} })
+		}},
+		{"AddSimpleFunction (pure by API)", "hsimple", true, func(fg *value.FunctionGenerator, key int) {
+			fg.AddSimpleFunction("hsimple", func(v value.Value) value.Value {
+				if i, ok := v.(value.Int); ok {
+					return i + 1
+				}
+				return v
+			})
+		}},
+		{"AddGoFunction (pure by API)", "hgo", true, func(fg *value.FunctionGenerator, key int) {
+			fg.AddGoFunction("hgo", 1, func(a ...value.Value) (value.Value, error) { return c02Double(funcGen.NewStack(a...), nil) })
+		}},
+	}
+}
+
+// the small programs every host configuration is exercised with (fn takes one int)
+func c02HostPrograms(cfg c02HostCfg) []*pgProgram {
+	x := func() *pgNode { return pgNId("x") }
+	fn := func(a *pgNode) *pgNode { return pgNCall("static", pgNId(cfg.Fn), a) }
+	ints := [][]*Tree{{c01Ti(5)}, {c01Ti(1)}, {c01Ti(-7)}}
+	trees := []*pgNode{
+		pgNOp("+", fn(pgNInt(3)), x()),
+		pgNLet("g", pgNClo([]string{"a"}, pgNOp("*", fn(pgNId("a")), pgNInt(2))), pgNOp("+", pgNCall("closure", pgNId("g"), pgNInt(4)), x())),
+		pgNIf(pgNOp("<", pgNInt(1), pgNInt(2)), x(), fn(pgNInt(5))),
+		fn(x()),
+		pgNOp("+", pgNMethod("method", pgNMethod("method", pgNList(pgNInt(1), pgNInt(2)), "map", pgNClo([]string{"a"}, fn(pgNId("a")))), "sum"), x()),
+		pgNOp("+", pgNCall("closure", pgNClo([]string{"a"}, pgNCall("closure", pgNClo([]string{"b"}, fn(pgNOp("+", pgNId("a"), pgNId("b")))), pgNInt(2))), pgNInt(1)), x()),
+		pgNOp("+", pgNTry(fn(pgNInt(2)), pgNInt(-1)), x()),
+		pgNOp("&", pgNOp("<", x(), pgNInt(0)), pgNOp(">", fn(pgNInt(2)), pgNInt(0))),
+	}
+	var ps []*pgProgram
+	for _, t := range trees {
+		ps = append(ps, &pgProgram{T: t, ArgNames: []string{"x"}, Tuples: ints, Stream: "host-api", Host: cfg.Name})
+	}
+	return ps
+}
+
+type c02HostGen struct {
+	cfg     c02HostCfg
+	on, off *value.FunctionGenerator
+	tableOK bool
+	table   string
+}
+
+var c02HostGens = map[string]*c02HostGen{}
+
+func c02HostGenFor(name string) *c02HostGen {
+	if h, ok := c02HostGens[name]; ok {
+		return h
+	}
+	for i, cfg := range c02HostConfigs() {
+		if cfg.Name != name {
+			continue
+		}
+		h := &c02HostGen{cfg: cfg, on: value.New(), off: value.New(), tableOK: true}
+		cfg.Build(h.on, 9000+i)
+		cfg.Build(h.off, 9000+i)
+		h.off.SetOptimizer(nil)
+		// the regenerated purity table (hook) against the declaration
+		for _, fg := range []*value.FunctionGenerator{h.on, h.off} {
+			found := false
+			for _, f := range fg.VerifStaticFunctions() {
+				if f.Name == cfg.Fn {
+					found = true
+					h.table = fmt.Sprintf("IsPure=%v", f.IsPure)
+					if f.IsPure != cfg.DeclaredPure {
+						h.tableOK = false
+					}
+				}
+			}
+			if !found {
+				h.tableOK = false
+				h.table = "function missing in the table"
+			}
+		}
+		c02HostGens[name] = h
+		return h
+	}
+	return nil
+}
+
+func (r *c02State) hostCase(p *pgProgram, id int) {
+	sum := r.sum
+	h := c02HostGenFor(p.Host)
+	if h == nil {
+		fatal("unknown host configuration %q", p.Host)
+	}
+	text := p.T.Render(pgPosLet)
+	c01KeepMessages = false
+	off := c02Run(h.off, text, p.ArgNames, p.Tuples)
+	on := c02Run(h.on, text, p.ArgNames, p.Tuples)
+	sum.Evaluations++
+	sum.Count("stream", p.Stream)
+	sum.Count("host_api", fmt.Sprintf("%s [declared pure=%v, table %s]", h.cfg.Name, h.cfg.DeclaredPure, h.table))
+	var hoff, hon []string
+	for i := range off.out {
+		hoff = append(hoff, off.out[i].Human+"  [ticks "+off.ticks[i]+"]")
+		hon = append(hon, on.out[i].Human+"  [ticks "+on.ticks[i]+"]")
+	}
+	sig := "host API: " + h.cfg.Name
+	human := map[string]any{"text": text, "host_configuration": h.cfg.Name, "function": h.cfg.Fn, "declared_pure": h.cfg.DeclaredPure,
+		"purity_table": h.table, "implementation_optimizer_off": hoff, "implementation_optimizer_on": hon,
+		"ticks_during_generate": map[string]string{"on": on.genTicks, "off": off.genTicks}, "signature": sig, "repro": p}
+	sum.Cases[fmt.Sprint(id)] = human
+	viol := func(what, exp, obs string) {
+		sum.GoViolations = append(sum.GoViolations, GoViolation{CaseID: id, What: what, Sig: sig, Human: human, Expected: exp, Observed: obs})
+	}
+	if !h.tableOK {
+		obs := h.table
+		if !h.cfg.DeclaredPure {
+			obs += fmt.Sprintf("; calls during Generate with optimizer: [%s]; calls per evaluation with optimizer: %v, without: %v", on.genTicks, on.ticks, off.ticks)
+		}
+		viol("the purity the generator records for a host function differs from what the host declared", fmt.Sprintf("IsPure=%v", h.cfg.DeclaredPure), obs)
+		return
+	}
+	for i := range off.out {
+		if !c01SameOutcome(off.out[i], on.out[i]) {
+			viol("outcome with the default optimizer differs from the outcome with SetOptimizer(nil)", "optimizer off: "+off.out[i].Human, "optimizer on: "+on.out[i].Human)
+			return
+		}
+	}
+	if h.cfg.DeclaredPure {
+		return
+	}
+	if on.genTicks != "" || off.genTicks != "" {
+		viol("a host function declared impure was executed during Generate", "no call during Generate", "calls with optimizer: ["+on.genTicks+"], without: ["+off.genTicks+"]")
+		return
+	}
+	if on.repeatDiff != "" || off.repeatDiff != "" {
+		viol("the same generated function behaves differently when evaluated again on equal arguments", "equal", on.repeatDiff+" / "+off.repeatDiff)
+		return
+	}
+	for i := range off.out {
+		if off.ticks[i] != on.ticks[i] {
+			viol("a host function declared impure is executed a different number of times with and without the optimizer", "optimizer off: calls ["+off.ticks[i]+"]", "optimizer on: calls ["+on.ticks[i]+"]")
+			return
+		}
+	}
+}
+
 // ---------- corpus ----------
 
 func c02ArgOfKind(kind string, variant int) *Tree {
@@ -545,6 +742,10 @@ func c02Corpus() []*pgProgram {
 		}
 		ps = append(ps, mk(t, ints...))
 	}
+	// an outer (computed constant / variable) name read inside a func or closure body, then hidden by a local of the same name
+	for form := 0; form < 5; form++ {
+		ps = append(ps, mk(pgShadowAfterUse(form, []string{"a", "b", "f", "n", "m"}, x(), 2, 3), ints...))
+	}
 	// a constant list/map literal inside a folded closure is one shared value: it must survive its uses
 	for form := 0; form < 7; form++ {
 		ps = append(ps, c02SharedConstProgram(form, 1, 3, 0))
@@ -599,6 +800,11 @@ func cmdC02(seed int64, tier, outDir string) {
 		if err := json.Unmarshal(loadReplayCase(), &p); err != nil {
 			fatal("replay case: %v", err)
 		}
+		if p.Host != "" {
+			run.hostCase(&p, 1)
+			finish()
+			return
+		}
 		cw.epilogue += "Definition c02_expected := Eval vm_compute in map c02_explain cases.\nPrint c02_expected.\n"
 		run.runCase(&p, 1)
 		finish()
@@ -611,6 +817,13 @@ func cmdC02(seed int64, tier, outDir string) {
 		run.runCase(p, id)
 	}
 	sum.Extra["corpus_cases"] = id
+	// the host registration API family (Go-side oracles only)
+	for _, cfg := range c02HostConfigs() {
+		for _, p := range c02HostPrograms(cfg) {
+			id++
+			run.hostCase(p, id)
+		}
+	}
 	r := NewRng(seed)
 	for i := 0; i < n; i++ {
 		id++
